@@ -353,3 +353,175 @@ Definition mates_roundtrip (refs : list (list N)) (ss : list samrec) : mres :=
   | None => MWriteErr
   | Some rs => slice_roundtrip rs
   end.
+
+(* ================================================================================================ *)
+(* The writer of /repo de003b4 ("CRAM writer linked mates whose fields the reader resolves to
+   different values").  set_mates now (1) marks every record detached, (2) collects, per name, the
+   indices of the records that are segmented, not secondary and not supplementary
+   (templates: HashMap<name, Vec<usize>>), and (3) links the records of one template - each to the
+   next one - only if the template has more than one record and mates_are_resolvable: every record
+   carries exactly the mate flags / RNEXT / PNEXT that the reader will copy from the next record
+   (the first one for the last) and the TLEN the reader will compute from the first and the last
+   record (+ for the first, - for all others).
+
+   [set_mates_w] gives the result record by record: templates[name] is [group rs name] (the indices
+   in increasing order), and a record is rewritten by set_downstream_mate iff its template is
+   linked.  The HashMap iteration order does not matter: the templates are disjoint.
+   [set_mates_loop] below spells out the two loops of the function; the harness compares both with
+   the CF / NF data series of the files the real writer produces. *)
+Definition is_supplementary (f : N) : bool := N.testbit f 11.
+Definition is_mate_reverse (f : N) : bool := N.testbit f 5.
+Definition is_mate_unmapped (f : N) : bool := N.testbit f 3.
+
+Definition segment (r : mrec) : bool :=
+  is_segmented (m_flags r) && negb (is_secondary (m_flags r)) && negb (is_supplementary (m_flags r)).
+
+(* the writer's own calculate_template_length: the features of an unmapped record are not written,
+   so its span is the read length *)
+Definition w_alignment_end (r : mrec) : option N :=
+  match m_start r with
+  | None => None
+  | Some s =>
+      position_new (s + (if is_unmapped (m_flags r) then m_rl r
+                         else alignment_span (m_rl r) (m_feats r)) - 1)
+  end.
+
+Definition w_tlen_calc (r mate : mrec) : Z :=
+  match omin (m_start r) (m_start mate) with
+  | None => 0%Z
+  | Some start =>
+      match omax (w_alignment_end r) (w_alignment_end mate) with
+      | None => 0%Z
+      | Some e =>
+          let l := if e <? start then start - e + 1 else e - start + 1 in
+          Z.of_N (if l <=? i32_max then l else i32_max)
+      end
+  end.
+
+(* the closure of mates_are_resolvable for one (record, mate, expected TLEN) *)
+Definition link_cond (r mate : mrec) (t : Z) : bool :=
+  Bool.eqb (is_mate_reverse (m_flags r)) (is_reverse (m_flags mate))
+  && Bool.eqb (is_mate_unmapped (m_flags r)) (is_unmapped (m_flags mate))
+  && oN_eqb (m_mref r) (m_ref mate) && oN_eqb (m_mstart r) (m_start mate)
+  && Z.eqb (m_tlen r) t.
+
+(* indices.iter().enumerate().all(..): the mate of the k-th segment is the (k+1)-th, the first one
+   for the last; expected TLEN is t for k = 0 and -t otherwise *)
+Fixpoint resolvable_from (rs : list mrec) (first : nat) (t : Z) (isfirst : bool) (idx : list nat)
+  : bool :=
+  match idx with
+  | [] => true
+  | i :: tl =>
+      link_cond (rget rs i) (rget rs (match tl with j :: _ => j | [] => first end))
+                (if isfirst then t else (- t)%Z)
+      && resolvable_from rs first t false tl
+  end.
+
+Definition mates_are_resolvable (rs : list mrec) (idx : list nat) : bool :=
+  let first := hd 0%nat idx in
+  resolvable_from rs first (w_tlen_calc (rget rs first) (rget rs (last idx 0%nat))) true idx.
+
+(* templates[name] *)
+Definition in_group (rs : list mrec) (k : option (list N)) (x : nat) : bool :=
+  segment (rget rs x) && oname_eqb (m_name (rget rs x)) k.
+Definition group (rs : list mrec) (k : option (list N)) : list nat :=
+  filter (in_group rs k) (seq 0 (length rs)).
+
+(* the element after x in indices (indices.windows(2)) *)
+Fixpoint next_in (g : list nat) (x : nat) : option nat :=
+  match g with
+  | a :: tl => match tl with
+               | b :: _ => if (a =? x)%nat then Some b else next_in tl x
+               | [] => None
+               end
+  | [] => None
+  end.
+
+Definition linked_group (rs : list mrec) (g : list nat) : bool :=
+  (1 <? length g)%nat && mates_are_resolvable rs g.
+
+Definition set_mates_w (rs : list mrec) : list mrec :=
+  map (fun x =>
+         let r := rget rs x in
+         let g := group rs (m_name r) in
+         if segment r && linked_group rs g then
+           match next_in g x with
+           | Some y => clear_detached (set_downstream (y - x - 1) (set_detached r))
+           | None => clear_detached (set_detached r)
+           end
+         else set_detached r)
+      (seq 0 (length rs)).
+
+(* ---- the same function as the two loops of the Rust code *)
+Definition tmap := list (option (list N) * list nat).
+(* templates.entry(name).or_default().push(i) *)
+Fixpoint tm_push (k : option (list N)) (i : nat) (m : tmap) : tmap :=
+  match m with
+  | [] => [(k, [i])]
+  | (k', l) :: r => if oname_eqb k k' then (k', l ++ [i]) :: r else (k', l) :: tm_push k i r
+  end.
+Fixpoint templates_from (i : nat) (rs : list mrec) (m : tmap) : tmap :=
+  match rs with
+  | [] => m
+  | r :: tl => templates_from (S i) tl (if segment r then tm_push (m_name r) i m else m)
+  end.
+(* for pair in indices.windows(2) { set_downstream_mate(i, record, j, mate) } *)
+Fixpoint link_windows (idx : list nat) (rs : list mrec) : list mrec :=
+  match idx with
+  | i :: tl =>
+      match tl with
+      | j :: _ =>
+          link_windows tl
+            (upd (upd rs i (fun r => clear_detached (set_downstream (j - i - 1) r))) j clear_detached)
+      | [] => rs
+      end
+  | [] => rs
+  end.
+Definition set_mates_loop (rs : list mrec) : list mrec :=
+  fold_left (fun acc (e : option (list N) * list nat) =>
+               if linked_group acc (snd e) then link_windows (snd e) acc else acc)
+            (templates_from 0 rs []) (map set_detached rs).
+
+(* write_mate ; read_mate, and the features of an unmapped record (write_unmapped_read stores
+   none, the reader holds an empty list) *)
+Definition with_feats (fs : list feature) (r : mrec) : mrec :=
+  mk_mrec (m_flags r) (m_name r) (m_ref r) (m_start r) (m_rl r) fs
+          (m_mref r) (m_mstart r) (m_tlen r) (m_detached r) (m_down r) (m_dist r).
+Definition store_w (r : mrec) : option mrec :=
+  match store r with
+  | Some r' => Some (if is_unmapped (m_flags r') then with_feats [] r' else r')
+  | None => None
+  end.
+Fixpoint store_all_w (rs : list mrec) : option (list mrec) :=
+  match rs with
+  | [] => Some []
+  | r :: tl =>
+      match store_w r, store_all_w tl with
+      | Some r', Some tl' => Some (r' :: tl')
+      | _, _ => None
+      end
+  end.
+
+(* one slice through the writer and the reader of /repo *)
+Definition slice_rt (rs : list mrec) : mres :=
+  match store_all_w (set_mates_w rs) with
+  | None => MWriteErr
+  | Some st => match resolve_mates st with None => MReadErr | Some out => MOk out end
+  end.
+
+Definition mates_rt (refs : list (list N)) (ss : list samrec) : mres :=
+  match convert_all refs ss with
+  | None => MWriteErr
+  | Some rs => slice_rt rs
+  end.
+
+(* what the file shows of set_mates: per record the CRAM flag bits DETACHED (2) and
+   MATE_IS_DOWNSTREAM (4) and the NF value; for both formulations of the writer *)
+Definition link_view (r : mrec) : N * option N :=
+  ((if m_detached r then 2 else 0) + (if m_down r then 4 else 0), m_dist r).
+Definition mates_links (refs : list (list N)) (ss : list samrec)
+  : option (list (N * option N) * list (N * option N)) :=
+  match convert_all refs ss with
+  | None => None
+  | Some rs => Some (map link_view (set_mates_w rs), map link_view (set_mates_loop rs))
+  end.
